@@ -127,7 +127,7 @@ class C18(Prop):
     assumptions = (
         "reference evaluator vf/lang.py on the same bindings; printed source that does not execute (array constants printed with str) is a decline",
     )
-    cases = {"quick": 2000, "thorough": 80000}
+    cases = {"quick": 4000, "thorough": 80000}
 
     def strategy(self, tier):
         main = st.integers(0, 2**40).map(robust_gen(gen_case))
